@@ -6,6 +6,7 @@ from .. import oracles as orc
 from ..gen import J, JI
 
 PROP = "C02"
+HOSTILE = ('scale',)
 MONITORS = ("WF", "DENS")
 REQUIRED_MONITORS = ("DENS",)
 ANCHORS = [("measure.py", "GaussianMeasure.compute_lnZ"),
@@ -403,6 +404,9 @@ def run_approx(cell, rec, seed):
 def run_cell(cell, rec, seed):
     if "repo_tests" in cell:
         return repotests.run(cell, rec)
+    if cell["part"] == "approx":
+        with gen.calm():  # kernels and link functions have an intrinsic O(1) scale
+            return run_approx(cell, rec, seed)
     {"mass": run_mass, "ctor": run_ctor, "cond": run_cond, "approx": run_approx}[cell["part"]](
         cell, rec, seed)
 
